@@ -48,10 +48,11 @@ ASSUMPTIONS = {
         "syn / quote / proc-macro2 behaviour (Path, Member, Punctuated parsing and printing, Display of token streams) is modelled in Syn.lean, not verified",
         "the in-process harness uses proc-macro2's fallback implementation, not rustc's proc_macro bridge",
     ],
-    "C01": ["runtime values are not modelled: the theorems show which tokens are emitted for which slot/source; that rustc evaluates `T { a: e }` by storing e in a is rustc's semantics"],
+    "C01": ["values are modelled only for the plain fragment (named struct, named counterpart, members mapped by default or by a rename without expression): O2oModel/Sem.lean reads `T { a: value.x, }` as 'a holds the value at x' and `other.x = self.n;` as a store; the C01_value_* theorems are about that reading. For expressions, casts, ghosts, tuple shapes and nesting the theorems show which tokens are emitted for which slot/source, and the runtime tie compiles and runs designed programs",
+            "that rustc evaluates struct expressions and assignments as Sem.lean reads them is rustc's semantics, not proved"],
     "C02": ["as C01; `match` semantics (first matching arm) is rustc's"],
     "C03": ["the once-construction theorem for arbitrary interleavings is not proved yet; the sort is proved a stable permutation ordered by group index"],
-    "C07": ["agreement is proved syntactically (same plumbing tokens); equality of runtime values follows only under rustc's semantics of those tokens"],
+    "C07": ["agreement is proved as token identity of the member lines (any flavours of one direction) and, for Into vs IntoExisting, as equality of the values both leave at every designated member under the record semantics of O2oModel/Sem.lean (plain fragment); beyond that fragment agreement is syntactic (same plumbing tokens) plus the runtime tie"],
     "C09": ["pattern matching semantics is rustc's"],
     "C11": ["'type-checks' is rustc's judgement: the header construction is proved, acceptance by rustc is not modelled"],
     "C18": ["the two syn versions are library code: compared by running both builds on every case, not proved"],
